@@ -922,10 +922,13 @@ impl<A: Zeroize + NewBytes + ResizableBytes + Lockable<A>> NewLockedFromSlice<A>
     fn from_slice_into_locked(
         src: &[u8],
     ) -> Result<Protected<Self, traits::ReadWrite, traits::Locked>, crate::error::Error> {
-        let mut res = Self::new_bytes().mlock()?;
-        res.resize(src.len(), 0);
-        res.as_mut_slice().copy_from_slice(src);
-        Ok(res)
+        // Size and fill the region first, then lock it: resizing an already
+        // locked region has to lock a second region and can only panic if
+        // that lock request is refused.
+        let mut new = Self::new_bytes();
+        new.resize(src.len(), 0);
+        new.as_mut_slice().copy_from_slice(src);
+        Ok(new.mlock()?)
     }
 
     /// Returns a new locked byte array from `other`. Panics if sizes do not
